@@ -9,7 +9,8 @@ Driver handlers for `StreamDeserializer` over typed item types (`harness/src/sty
   `E:<hex msg>:<category>:<line>:<col>`, `IO:<kind>`, `N`, each followed by `@byte_offset()`.
   Specification, on the crate's history alone (`judgeHistory`): fused after a failed item, nothing after `None`;
   `byte_offset()` never decreases, grows strictly with every value, stays within the input; every value is the value of
-  its own span read as ONE document (`deTypedTop` on `input[previous offset .. offset]`); an `Eof`-classified error is
+  its own span read as ONE document (`deTypedTop` on `input[previous offset .. offset]`); a bare scalar that is yielded is
+  followed by whitespace, a structural character, a quote or the end of input; an `Eof`-classified error is
   positioned at the end of the input; `None` (without a failure before it) only when nothing but whitespace is left,
   with `byte_offset()` = the length of the input.
 * `tstream3 <cfg> <schema> <calls> <hex> => str|slice|reader` (C09) — model per source; specification (`judgeSources`):
@@ -126,7 +127,16 @@ def judgeHistory (env : Env) (s : Schema) (bs : Bytes) (items : List It) : List 
              (if i.off ≤ prev then [s!"C12 typed stream: call {k} yields a value without consuming a byte (offset {prev} -> {i.off})"] else []) ++
              (let span := (bs.drop prev).take (i.off - prev)
               let one := SJ.Drv.Typed.showTop span "" (deTypedTop env s span)
-              if one == i.body then [] else [s!"C12 typed stream: call {k} yields {i.body} but its span [{prev},{i.off}) read as one document gives {one}"])
+              if one == i.body then [] else [s!"C12 typed stream: call {k} yields {i.body} but its span [{prev},{i.off}) read as one document gives {one}"]) ++
+             -- the delimiter rule of the statement: a bare scalar is followed by whitespace, a structural character, a quote or the end
+             (let first := ((bs.drop prev).dropWhile isWsB).headD 0
+              let bare := !(first == 0x5b || first == 0x22 || first == 0x7b)
+              match bs.drop i.off with
+              | d :: _ =>
+                if bare && !(isWsB d || d == 0x22 || d == 0x5b || d == 0x5d || d == 0x7b || d == 0x7d || d == 0x2c || d == 0x3a) then
+                  [s!"C12 typed stream: call {k} yields a bare scalar although byte {d} follows it at {i.off} (an error is due)"]
+                else []
+              | [] => [])
            else if i.isNone then
              (if i.off == n && (bs.drop prev).all isWsB then [] else [s!"C12 typed stream: None@{i.off} at call {k} although input is left after offset {prev} (length {n})"])
            else if i.isErr && i.cat == "eof" then
@@ -151,6 +161,10 @@ def tstream : Handler := fun args impl =>
     | _, _, _, _ => bad "decode"
   | _ => bad "arity"
 
+/-- messages of the codes raised by `self.error(code)` with a byte in the peek slot (`Proofs.Typed.PeekCode`) -/
+def peekMsgs : List String :=
+  [hexOfBytes (Gen.message .NumberOutOfRange), hexOfBytes (Gen.message .ExpectedNumericKey), hexOfBytes (Gen.message .ExpectedSomeValue)]
+
 /-- C09 on the slice's and the reader's history -/
 def judgeSR (bs : Bytes) (a b : List It) : List String :=
   let rec go (a b : List It) (k : Nat) (failedAt : Option (Nat × Option Nat)) : List String :=
@@ -174,7 +188,11 @@ def judgeSR (bs : Bytes) (a b : List It) : List String :=
            else
              SJ.Drv.Typed.judgePair bs "slice" "reader" false x.body y.body ++
              (match x.idx bs, y.idx bs with
-              | some i, some j => if j < i then [s!"C09 typed stream: call {k}: the reader reports an EARLIER index ({j}) than the slice ({i})"] else []
+              | some i, some j =>
+                (if j < i then [s!"C09 typed stream: call {k}: the reader reports an EARLIER index ({j}) than the slice ({i})"] else []) ++
+                -- only visitor errors and the three `self.error`-with-a-peeked-byte codes may differ (`c09_typed_stream_sources`)
+                (if i != j && x.cat != "data" && !(peekMsgs.contains x.msg) then
+                   [s!"C09 typed stream: call {k}: a parser error outside the peeked-byte sites is reported at {i} by the slice and at {j} by the reader"] else [])
               | _, _ => []))
       let failedAt' := match failedAt with
         | some f => some f
